@@ -105,10 +105,14 @@ def _alarm(signum, frame):
     raise Timeout()
 
 
+LAST = {"rec": None}
+
+
 def guarded(fn, seconds=5.0):
     """run fn() with the draws recorded and a wall-clock limit; returns (value | None, exception | None, rec)"""
     old = signal.signal(signal.SIGALRM, _alarm)
     rec = Rec()
+    LAST["rec"] = rec
     try:
         with warnings.catch_warnings():
             warnings.simplefilter("ignore")
@@ -304,7 +308,10 @@ def run_case(case):
         H, ex, rec = guarded(lambda: xgi.uniform_HPPM(n, m, k, eps, rho, seed=seed))
         if ex is not None:
             if type(ex).__name__ != "XGIError":
-                fails.append(("raises", repr(ex)[:200]))
+                pp = k / (m * n ** (m - 1))
+                rr = 1 / (rho ** m + (1 - rho) ** m) - 1
+                one = (1 + rr * eps) * pp == 1 or (1 - eps) * pp == 1     # the tensor handed to uniform_HSBM has an entry == 1
+                fails.append(("p1-raises" if one else "raises", repr(ex)[:200]))
             return out(None, ex)
         snap = snapshot(H)
         fails += pred_common(H, snap, range(n)) + pred_sizes(snap, {m}, "size-not-m")
@@ -573,6 +580,35 @@ def run_decoder(c):
     return {"all": got, "ref": ref, "count": cnt}, fails
 
 
+def geometric_boundaries(ctx):
+    """geometric(p) at boundary values of p and of the uniform draw: always an integer >= 1 or +inf, never an exception"""
+    import xgi.utils.utilities as U
+    orig = pyrandom.random
+    rs = [0.0, 5e-324, 1e-300, 1e-17, 0.5, 1 - 2 ** -53]
+    pvals = [1.0, 1, 1 - 2 ** -53, 0.9, 0.5, 0.3, 1e-9, 1e-16, 1e-17, 5e-324, 0.0, 0]
+    try:
+        for p in pvals:
+            for r in rs:
+                pyrandom.random = lambda r=r: r
+                ctx.evaluations += 1
+                ctx.stats["fn:geometric"] += 1
+                case = {"f": "geometric", "args": {"p": p, "uniform_draw": r}}
+                try:
+                    with warnings.catch_warnings():
+                        warnings.simplefilter("ignore")
+                        g = U.geometric(p)
+                except Exception as ex:  # noqa
+                    ctx.violation("geometric", "raises", case, detail=repr(ex)[:120])
+                    continue
+                okv = (isinstance(g, float) and math.isinf(g) and g > 0) or (float(g) == int(g) and g >= 1)
+                if not okv:
+                    ctx.violation("geometric", "gap-below-one", case, detail=f"geometric({p}) with random()={r} returned {g!r}")
+                if p == 1 and g != 1:
+                    ctx.violation("geometric", "p1-gap-not-one", case, detail=f"geometric(1) returned {g!r}")
+    finally:
+        pyrandom.random = orig
+
+
 # ------------------------------------------------------------------------------------------- case generation
 
 def gen_cases(ctx, scale=1):
@@ -584,7 +620,7 @@ def gen_cases(ctx, scale=1):
 
     # fast_random_hypergraph / random_hypergraph
     for n in range(0, ctx.n(7, 9)):
-        for _ in range(ctx.n(6, 40) * scale):
+        for _ in range(ctx.n(20, 60) * scale):
             if rng.random() < 0.5:
                 order = None
                 ps = [rng.choice(PS) for _ in range(rng.randint(1, 3))]
@@ -602,7 +638,7 @@ def gen_cases(ctx, scale=1):
     for n in range(0, ctx.n(6, 9)):
         for d in range(0, 4):
             for p in PS:
-                for s in seeds(1 if q else 3):
+                for s in seeds(2 if q else 4):
                     add("fast_random_hypergraph", {"n": n, "ps": [p], "order": [d]}, s)
 
     # uniform_erdos_renyi_hypergraph
@@ -612,14 +648,14 @@ def gen_cases(ctx, scale=1):
                 for multi in (False, True):
                     if multi and n ** m > 5000:
                         continue
-                    for s in seeds(1 if q else 4):
+                    for s in seeds(2 if q else 6):
                         add("uniform_erdos_renyi_hypergraph", {"n": n, "m": m, "p": p, "multiedges": multi}, s)
             for s in seeds(1):
                 add("uniform_erdos_renyi_hypergraph", {"n": n, "m": m, "p": rng.choice([0, 0.5, 1.5, 3]), "multiedges": rng.random() < 0.5,
                                                        "p_type": "degree"}, s)
 
     # uniform_HSBM / HPPM
-    for _ in range(ctx.n(120, 1500) * scale):
+    for _ in range(ctx.n(500, 4000) * scale):
         m = rng.choice([2, 2, 3])
         nb = rng.randint(1, 3 if m == 2 else 2)
         sizes = [rng.randint(0 if rng.random() < 0.1 else 1, 4 if m == 2 else 3) for _ in range(nb)]
@@ -642,7 +678,7 @@ def gen_cases(ctx, scale=1):
                 add("complete_hypergraph", {"n": n, "max_order": o, "include_singletons": sing})
 
     # configuration model
-    for _ in range(ctx.n(150, 3000) * scale):
+    for _ in range(ctx.n(600, 6000) * scale):
         m = rng.randint(1, 4)
         nn = rng.randint(m, 8)
         ids = rng.sample(range(0, 12), nn) if rng.random() < 0.3 else list(range(nn))
@@ -650,7 +686,7 @@ def gen_cases(ctx, scale=1):
         add("uniform_hypergraph_configuration_model", {"k": k, "m": m}, rng.randrange(10 ** 6))
 
     # chung_lu / dcsbm (structure only)
-    for _ in range(ctx.n(40, 600) * scale):
+    for _ in range(ctx.n(150, 1500) * scale):
         nn, ne = rng.randint(1, 7), rng.randint(1, 6)
         k1 = [[i, rng.randint(0, 4)] for i in range(nn)]
         k2 = [[j, rng.randint(0, 4)] for j in range(ne)]
@@ -689,10 +725,10 @@ def gen_cases(ctx, scale=1):
 
     # simplicial complexes
     for n in range(0, ctx.n(6, 7)):
-        for _ in range(ctx.n(6, 40) * scale):
+        for _ in range(ctx.n(25, 120) * scale):
             ps = [rng.choice(PS) for _ in range(rng.randint(1, 3))]
             add("random_simplicial_complex", {"n": n, "ps": ps}, rng.randrange(10 ** 6))
-    for _ in range(ctx.n(80, 1200) * scale):
+    for _ in range(ctx.n(250, 2500) * scale):
         n = rng.randint(0, 7)
         dens = rng.choice([0.2, 0.5, 0.8, 1.0])
         edges = [list(e) for e in itertools.combinations(range(n), 2) if rng.random() < dens]
@@ -732,6 +768,12 @@ def evaluate(ctx, cases, reqs, expect):
             ctx.nontrivial.add(jhash([case["f"], impl["nodes"], impl["edges"]]))
         for cls, detail in r["fails"]:
             ctx.violation(case["f"], cls, case, detail=detail)
+        rec = LAST["rec"]
+        if rec is not None:
+            ctx.stats["draws:geometric"] += len(rec.gaps)
+            ctx.stats["draws:other"] += len(rec.rands) + len(rec.samples) + sum(int(np.size(x)) for x in rec.nprand)
+            if any(not (g >= 1) for g in rec.gaps):
+                ctx.violation("geometric", "gap-below-one", case, detail=f"geometric() returned {[g for g in rec.gaps if not g >= 1][:3]}")
         ctx.sample({"case": case, "impl": {k: v for k, v in impl.items() if k != "node_list"}}, cap=3)
         if r["req"] is not None and "out" not in impl:
             reqs.append(r["req"])
@@ -797,6 +839,7 @@ def run(ctx):
     ctx.extra["exhaustive_scope"] = (f"index decoders: _index_to_edge_comb all n<={ctx.n(7, 9)}, m<=n; _index_to_edge_prod n<{ctx.n(5, 7)}, "
                                      f"m<{ctx.n(4, 5)}; _index_to_edge_partition all size lists of length <={ctx.n(3, 4)} over 0..{ctx.n(4, 5) - 1}; "
                                      "every valid index, implementation vs model vs itertools (validation of the model and predicate on the code)")
+    geometric_boundaries(ctx)
     evaluate(ctx, corpus_cases(), reqs, expect)
     evaluate(ctx, gen_cases(ctx), reqs, expect)
     dis = compare(ctx, reqs, expect)
@@ -832,6 +875,11 @@ def replay(ctx, path):
     if case["f"].startswith("decode_"):
         _, fails = run_decoder(dict(case["args"], f=case["f"]))
         fails = [(cls, d) for _, cls, d in fails]
+    elif case["f"] == "geometric":
+        c2 = type("C", (), {"evaluations": 0, "stats": Counter(), "violations": []})()
+        c2.violation = lambda site, cls, case, detail="": c2.violations.append((cls, detail))
+        geometric_boundaries(c2)
+        fails = c2.violations
     else:
         fails = run_case(case)["fails"]
     if not fails:
